@@ -238,18 +238,23 @@ class Dm14Query:
         self.return_raw_bytes = return_raw_bytes
         self.command = Command.READ
         self._ca.subscribe(self._parse_dm15)
-        self._send_dm14(self.user_level)
-        self.state = QueryState.WAIT_FOR_SEED
-        # wait for operation completed DM15 message
-        raw_bytes = None
         try:
-            raw_bytes = self.data_queue.get(block=True, timeout=max_timeout)
-        except queue.Empty:
-            if self.state is QueryState.WAIT_FOR_SEED:
-                raise RuntimeError("No response from server")
-            pass
-        for _ in range(self.exception_queue.qsize()):
-            raise self.exception_queue.get(block=False, timeout=max_timeout)
+            self._send_dm14(self.user_level)
+            self.state = QueryState.WAIT_FOR_SEED
+            # wait for operation completed DM15 message
+            raw_bytes = None
+            try:
+                raw_bytes = self.data_queue.get(block=True, timeout=max_timeout)
+            except queue.Empty:
+                if self.state is QueryState.WAIT_FOR_SEED:
+                    raise RuntimeError("No response from server")
+                pass
+            for _ in range(self.exception_queue.qsize()):
+                raise self.exception_queue.get(block=False, timeout=max_timeout)
+        finally:
+            # the transaction is over (successful or not): stop listening
+            self._ca.unsubscribe(self._parse_dm15)
+            self._ca.unsubscribe(self._parse_dm16)
         if raw_bytes:
             if self.return_raw_bytes:
                 return raw_bytes
@@ -284,17 +289,21 @@ class Dm14Query:
         self.bytes = self._values_to_bytes(values)
         self.object_count = len(values)
         self._ca.subscribe(self._parse_dm15)
-        self._send_dm14(self.user_level)
-        self.state = QueryState.WAIT_FOR_SEED
-        # wait for operation completed DM15 message
         try:
-            self.data_queue.get(block=True, timeout=max_timeout)
-            for _ in range(self.exception_queue.qsize()):
-                raise self.exception_queue.get(block=False, timeout=max_timeout)
-        except queue.Empty:
-            if self.state is QueryState.WAIT_FOR_SEED:
-                raise RuntimeError("No response from server")
-            pass  # expect empty queue for write
+            self._send_dm14(self.user_level)
+            self.state = QueryState.WAIT_FOR_SEED
+            # wait for operation completed DM15 message
+            try:
+                self.data_queue.get(block=True, timeout=max_timeout)
+                for _ in range(self.exception_queue.qsize()):
+                    raise self.exception_queue.get(block=False, timeout=max_timeout)
+            except queue.Empty:
+                if self.state is QueryState.WAIT_FOR_SEED:
+                    raise RuntimeError("No response from server")
+                pass  # expect empty queue for write
+        finally:
+            # the transaction is over (successful or not): stop listening
+            self._ca.unsubscribe(self._parse_dm15)
 
     def set_seed_key_algorithm(self, algorithm: callable) -> None:
         """
